@@ -226,6 +226,11 @@ def invoke(cwd, argv, today, vcs_shim=None, hook_shim=None, glob_perm=None, now=
             return glob_perm(items)
 
         pathlib.Path.glob = _glob
+    # `-vv` makes a real process call logging.basicConfig(level=DEBUG); our root handler turns basicConfig into a no-op,
+    # so give the root logger the level the real process would have for this one invocation
+    nverbose = sum(a.count("v") for a in argv if a.startswith("-v") and set(a[1:]) == {"v"}) + list(argv).count("--verbose")
+    root = logging.getLogger()
+    root.setLevel(logging.DEBUG if nverbose >= 2 else logging.INFO)
     res.before = snapshot(cwd)
     try:
         runner = click.testing.CliRunner()
@@ -235,6 +240,7 @@ def invoke(cwd, argv, today, vcs_shim=None, hook_shim=None, glob_perm=None, now=
         bumpver.vcs.sp = _state["orig_sp_vcs"]
         bumpver.hooks.sp = _state["orig_sp_hooks"]
         bumpver.utils.now = _state["orig_now"]
+        root.setLevel(logging.INFO)
     res.after = snapshot(cwd)
     res.exit_code = r.exit_code
     res.stdout = r.stdout
